@@ -54,7 +54,7 @@ impl C10 {
     /// let, a let whose value fails, a constraint), with the name read back in between.
     fn gen_repl_session(t: &mut Tape) -> Vec<String> {
         let name = *t.pick(&["a", "limit", "cfg"]);
-        let v1 = *t.pick(&["1", "\"one\"", "{x = 1, y = [1, 2]}", "[1, 2, 3]", "true", "1.5"]);
+        let v1 = *t.pick(&["1", "\"one\"", "[[1], [2, 3]]", "[1, 2, 3]", "true", "1.5"]);
         let mut s = vec![];
         if t.chance(1, 3) {
             s.push("let other = 0;".to_string());
@@ -315,6 +315,7 @@ impl Property for C10 {
     }
     fn assumptions(&self) -> Vec<String> {
         vec![
+            "1 in 40 generated cases is an interactive session instead: a binding, then refused attempts to bind the name again (let, failing let, constraint) typed into `ucg repl`; the name must read back the same after every attempt".into(),
             "reserved words are the list in vm.rs plus env, true, false (the property's anchors); other grammar keywords accepted as names are not alarmed on".into(),
             "template outcomes come from the reference interpreter's lexical scoping rules (reference: Functions, Modules, Format expressions)".into(),
         ]
